@@ -89,12 +89,12 @@ Hypothesis Hne : forall x, In x c -> oloc (snd x) <> [].
 
 (* a slot of a bin with operations `ops`, when `pre` is the processed prefix of c *)
 Definition slot_ok (pre : list cop) (ops : list op) (s : slot) : Prop :=
+  (exists x, In x pre /\ touch (sq s) x = true /\ fst x = sstart s) /\
   if sact s then
-    pq (sq s) ops = fq (sq s) (fun cy => sstart s <=? cy)%Z pre /\
-    (exists x, In x pre /\ touch (sq s) x = true /\ fst x = sstart s)
+    send s = None /\ pq (sq s) ops = fq (sq s) (fun cy => sstart s <=? cy)%Z pre
   else match send s with
     | Some e => pq (sq s) ops = fq (sq s) (fun cy => (sstart s <=? cy) && (cy <=? e))%Z c /\
-                (sstart s <= e + 1)%Z
+                (sstart s <= e)%Z
     | None => pq (sq s) ops = fq (sq s) (fun cy => sstart s <=? cy)%Z c
     end.
 
@@ -147,7 +147,7 @@ Lemma slot_ok_close pre suf ops loc cur s :
 Proof. intros Hc Hp Hs H. unfold close_slot. destruct (sact s) eqn:A; simpl; auto.
   destruct (memb (sq s) loc) eqn:M; simpl; auto.
   apply memb_In in M. unfold slot_ok in *. rewrite A in H. simpl.
-  destruct H as [H (x & Hx & Tx & Ex)]. split.
+  destruct H as [(x & Hx & Tx & Ex) [_ H]]. split; [exists x; auto|]. split.
   - rewrite H. symmetry. eapply close_slab; eauto.
   - specialize (Hp _ M x Hx Tx). lia. Qed.
 
@@ -423,16 +423,19 @@ Proof. reflexivity. Qed.
 
 Lemma slot_ok_other pre x ops s :
   slot_ok pre ops s -> (sact s = true -> touch (sq s) x = false) -> slot_ok (pre ++ [x]) ops s.
-Proof. unfold slot_ok. destruct (sact s); auto. intros [H (y & Hy & Ty & Ey)] Ht. split.
-  - rewrite fq_app, H. unfold fq at 3. simpl. rewrite (Ht eq_refl). simpl. rewrite app_nil_r. reflexivity.
-  - exists y. split; auto. apply in_or_app; auto. Qed.
+Proof. unfold slot_ok. intros [(y & Hy & Ty & Ey) H] Ht.
+  split; [exists y; split; auto; apply in_or_app; auto|].
+  destruct (sact s); auto. destruct H as [Hn H]. split; auto.
+  rewrite fq_app, H. unfold fq at 3. simpl. rewrite (Ht eq_refl). simpl. rewrite app_nil_r. reflexivity. Qed.
 
 Lemma slot_ok_sel_old pre cur o rest ops s :
   c = pre ++ (cur, o) :: rest ->
   slot_ok pre ops s -> (In (sq s) (oloc o) -> sact s = true) ->
   slot_ok (pre ++ [(cur, o)]) (ops ++ [o]) s.
-Proof. intros Hc H Hin. unfold slot_ok in *. destruct (sact s) eqn:A.
-  - destruct H as [H (y & Hy & Ty & Ey)]. split; [|exists y; split; auto; apply in_or_app; auto].
+Proof. intros Hc H Hin. unfold slot_ok in *. destruct H as [(y & Hy & Ty & Ey) H].
+  split; [exists y; split; auto; apply in_or_app; auto|].
+  destruct (sact s) eqn:A.
+  - destruct H as [Hn H]. split; auto.
     rewrite pq_app, fq_app, H, pq_single, fq_single. f_equal.
     destruct (memb (sq s) (oloc o)) eqn:M; simpl; auto.
     assert (fst y < cur)%Z.
@@ -444,15 +447,15 @@ Proof. intros Hc H Hin. unfold slot_ok in *. destruct (sact s) eqn:A.
 
 Lemma slot_ok_new pre cur o rest ops s :
   c = pre ++ (cur, o) :: rest ->
-  sstart s = cur -> sact s = true -> In (sq s) (oloc o) -> pq (sq s) ops = [] ->
+  sstart s = cur -> send s = None -> sact s = true -> In (sq s) (oloc o) -> pq (sq s) ops = [] ->
   slot_ok (pre ++ [(cur, o)]) (ops ++ [o]) s.
-Proof. intros Hc Hs Ha Hq Hp. unfold slot_ok. rewrite Ha.
+Proof. intros Hc Hs He Ha Hq Hp. unfold slot_ok. rewrite Ha.
   assert (M : memb (sq s) (oloc o) = true) by (apply memb_In; auto). split.
-  - rewrite pq_app, fq_app, Hp, pq_single, fq_single, M, Hs. simpl.
+  - exists (cur, o). split; [apply in_or_app; right; left; auto|]. split; auto.
+  - split; [exact He|]. rewrite pq_app, fq_app, Hp, pq_single, fq_single, M, Hs. simpl.
     rewrite Z.leb_refl. rewrite (fq_none (sq s) _ pre); auto.
     intros y Hy Ty. apply Z.leb_gt.
-    apply (ctx_pre c pre (cur, o) rest (sq s) y); auto.
-  - exists (cur, o). split; [apply in_or_app; right; left; auto|]. split; auto. Qed.
+    apply (ctx_pre c pre (cur, o) rest (sq s) y); auto. Qed.
 
 (* ---------- adding the operation to the selected bin ---------- *)
 Lemma add_step_inv pre cur o rest st2 sel sb a' :
@@ -672,8 +675,9 @@ Proof. intros I Hb Hp Hr. destruct I.
       assert (Hst : nth (sq s) (dl st) 0%Z = sstart s).
       { unfold ready in Hr. rewrite forallb_forall in Hr. apply Z.eqb_eq. apply Hr; auto. }
       rewrite Hst. rewrite Forall_forall in S3. specialize (S3 s Hs). unfold slot_ok in S3.
+      destruct S3 as [_ S3].
       rewrite (any_inactive_slots b s Hina Hs) in S3. destruct (send s) as [e|].
-      * destruct S3 as [S3 Hle]. rewrite S3. apply fq_split_sorted; auto.
+      * destruct S3 as [S3 Hle]. rewrite S3. apply fq_split_sorted; auto. lia.
       * rewrite S3, fq_split_sorted_inf; auto. apply fq_ext. intros x Hx _.
         symmetry. apply Z.ltb_lt. apply Hcyc; auto.
     + rewrite advance_notin; auto. rewrite (pq_nil_notin q (bops b)); [rewrite app_nil_r; reflexivity|].
